@@ -6,7 +6,8 @@ import MidnightZK.Gen.C04Gates
 
 * `trace <nr_cols> <max_bit_len> ; op … ; op …` — canonical structure of the synthesis of the
   program (regions, selectors, fixed cells, copy constraints, table) and the cells of its
-  variables;
+  variables, and the content of the bound cache of `NativeGadget` (`B[cell<bound …]`, compared
+  with the real `constrained_cells` read through the hook `verif_constrained_cells`);
 * `eval <hdr> ; <inputs>` — the value of every variable according to the specification;
 * `check <hdr> ; <advice values in canonical cell order>` — does the model's constraint system
   accept this assignment (1/0).
@@ -39,7 +40,7 @@ def trace (toks : List String) : String :=
   | some (r0, ops) =>
     match runOps fi ofN r0 ops with
     | none => "bad-op"
-    | some r => s!"{r.st.render (fun (x : Fp) => x.val)} {renderVars r.vars}"
+    | some r => s!"{r.st.render (fun (x : Fp) => x.val)} {renderVars r.vars} {renderBounds r.st.bounds}"
 
 def eval (toks : List String) : String :=
   match splitOps toks with
